@@ -78,9 +78,9 @@ func vpH_C03_repeated_members() {
 		vpReach("end")
 		return
 	}
-	shape := 4 + vpChoice(2)
+	shape := 14 + vpChoice(2)
 	if fields[f].Kind == "NLV" {
-		shape-- // natural-language lists with a repeated tag (3) and with two untagged texts (4)
+		shape -= 11 // natural-language lists with a repeated tag (3) and with two untagged texts (4)
 	}
 	x := vpNew(ti)
 	vpSetField(x, 0, 0, 'i')
